@@ -58,6 +58,10 @@ func readCrxMoovBox(b *box, exifReader ExifReader) (crx CrxMoovBox, err error) {
 		if err != nil && logLevelError() {
 			logError().Object("box", inner).Err(err).Send()
 		}
+		if err != nil && inner.childFailed() {
+			inner.close()
+			break
+		}
 		if err = inner.close(); err != nil {
 			return
 		}
